@@ -171,6 +171,13 @@ Definition is_p2wsh (s : bytes) : bool :=
   match s with a :: b :: _ => (lenN s =? 34) && (n8 a =? 0) && (n8 b =? 0x20) | _ => false end.
 Definition is_p2wpkh (s : bytes) : bool :=
   match s with a :: b :: _ => (lenN s =? 22) && (n8 a =? 0) && (n8 b =? 0x14) | _ => false end.
+Definition is_p2pkh (s : bytes) : bool :=
+  match s with
+  | a :: b :: c :: r =>
+      (lenN s =? 25) && (n8 a =? 0x76) && (n8 b =? 0xa9) && (n8 c =? 0x14) &&
+      bytes_eqb (skipn 20 r) [x88; xac]
+  | _ => false
+  end.
 Definition is_p2tr (s : bytes) : bool :=
   match s with a :: b :: _ => (lenN s =? 34) && (n8 a =? 0x51) && (n8 b =? 0x20) | _ => false end.
 
@@ -1139,16 +1146,11 @@ Section Eval.
           end
       | None => false
       end
-    else
-      match spk with
-      | a :: b :: c :: r =>
-          (lenN spk =? 25) && (n8 a =? 0x76) && (n8 b =? 0xa9) && (n8 c =? 0x14) &&
-          bytes_eqb (skipn 20 r) [SOP_EQUALVERIFY; SOP_CHECKSIG] &&
-          negb (nonempty wit) &&
-          match parse_pushes script_sig with
-          | Some [sg; pk] => bytes_eqb (hash160 pk) (firstn 20 r) && chk ALegacy spk pk sg
-          | _ => false
-          end
+    else if is_p2pkh spk then
+      negb (nonempty wit) &&
+      match parse_pushes script_sig with
+      | Some [sg; pk] => bytes_eqb (hash160 pk) (firstn 20 (skipn 3 spk)) && chk ALegacy spk pk sg
       | _ => false
-      end.
+      end
+    else false.
 End Eval.
